@@ -217,6 +217,39 @@ def core_tree(base_s, chpath, ckind, patterns, cad_s, fkind=None):
     return t
 
 
+def sync_tree(rng):
+    """synchronised channels, as a multi-channel recorder produces them: 2-3 channels with the same subdirectories and the
+    same file names in each (and, sometimes, a metadata channel beside them)"""
+    base_s = rng.choice(BASES)
+    cad = rng.choice([10, 3600, 4])
+    base_s -= base_s % cad
+    t = Tree(base_s)
+    names = rng.choice([["chA", "chB"], ["ch0", "ch1", "ch2"], ["grp/chA", "grp/chB"], ["b", "a"]])
+    kind = rng.choice(["drf", "drf", "dmd"])
+    fkind = "rf" if kind == "drf" else "md"
+    nsub = rng.choice([1, 1, 2, 3])
+    plan = []
+    for j in range(nsub):
+        st = j * cad * 1000
+        offs = sorted(rng.sample([0, 1000, (cad // 2) * 1000, (cad - 1) * 1000], rng.randint(1, 3)))
+        plan.append((st, [o if fkind == "md" else o + rng.choice([0, 250]) for o in offs]))
+    for path in names:
+        ch = t.chan(path)
+        for k in KIND_PROPS[kind]:
+            t.prop(ch, k)
+        for st, offs in plan:
+            sd = t.sub(ch, st)
+            for o in offs:
+                t.data(ch, sd, fkind, st + o)
+    seen, keep = set(), []
+    for f in t.files:
+        if f["rel"] not in seen:
+            seen.add(f["rel"])
+            keep.append(f)
+    t.files = keep
+    return t
+
+
 CORE_PATTERNS = ("E", "A", "B", "AB", "T", "X", "BB")
 
 
@@ -647,18 +680,30 @@ class TransferWorld:
             raise ValueError("files in the source tree that the abstract tree does not know: %s" % stray[:5])
 
     def dst(self, d):
-        return os.path.join(self.base, "dst%d" % d)
+        return getattr(self, "dsts", {}).get(d) or os.path.join(self.base, "dst%d" % d)
 
-    def run(self, cmd, o, chs=(), symbolic=False, comma=False, float_time=False, rel_end=False, spelling=0):
+    def run(self, cmd, o, chs=(), symbolic=False, comma=False, float_time=False, rel_end=False, spelling=0, via_link=False):
+        """via_link: the destination is named through a symbolic link to a directory that lives elsewhere (at another
+        depth), as with a data disk mounted or linked into a working directory"""
         from digital_rf import drf_command, list_drf
 
         tree, src = self.tree, self.src
         self.nd += 1
         d = self.nd
         dst = self.dst(d)
+        dst_arg = dst
+        if via_link:
+            real_parent = os.path.join(self.base, "disk%d" % d, "array0", "experiment")
+            os.makedirs(real_parent)
+            link = os.path.join(self.base, "mnt%d" % d)
+            os.symlink(real_parent, link)
+            dst = os.path.join(real_parent, "dst%d" % d)
+            dst_arg = os.path.join(link, "dst%d" % d)
+            self.dsts = getattr(self, "dsts", {})
+            self.dsts[d] = dst
         os.makedirs(dst)
         s0 = self.snap
-        argv = cli_args(cmd, src, dst, tree, o, chs, symbolic, comma, float_time, rel_end, spelling)
+        argv = cli_args(cmd, src, dst_arg, tree, o, chs, symbolic, comma, float_time, rel_end, spelling)
         # the equivalent listing, asked of the real lsdrf with the same options (the property's own wording)
         eq = []
         eq_raised = False
@@ -786,7 +831,9 @@ def reader_events(digital_rf, np, world, truth, ev):
     k0 = truth["k0"]
     if rf_t and "drfprop" in kinds:
         a, b = rf_t[0] * RATE // 1000, (rf_t[-1] + FILE_MS) * RATE // 1000 - 1
-        want = blocks_of({k: v for k, v in truth["rf"].items() if a <= k <= b})
+        # the samples of the transferred files only (an earlier mv of the same world may have taken files of this period away)
+        per = [(t * RATE // 1000, (t + FILE_MS) * RATE // 1000 - 1) for t in rf_t]
+        want = blocks_of({k: v for k, v in truth["rf"].items() if any(lo <= k <= hi for lo, hi in per)})
         try:
             r = digital_rf.DigitalRFReader(dst)
             got = []
